@@ -61,6 +61,25 @@ class C05Spec(c01.C01Spec):
         s['max_subs'] = 80
         conf = cfg['conf']
         conf['connectionRetryTime'] = rng.choice([0, 0.5, 2.0])
+        if rng.random() < 0.35:
+            # lagging followers that need a snapshot while every node compacts all the time: compaction of a node's own
+            # log and the installation of a leader's snapshot meet in all orders (inline serializers finish in the next tick)
+            conf['logCompactionMinEntries'] = rng.choice([2, 3, 5])
+            conf['logCompactionMinTime'] = rng.choice([0.2, 0.5, 1 << 30])
+            conf['logCompactionBatchSize'] = rng.choice([64, 200, 1024, 1 << 16])
+            place = rng.choice(['memory', 'file'])
+            conf['dump'] = place == 'file'
+            conf['useFork'] = False
+            cfg['placement'] = place
+            s['w_compact'] = rng.choice([0.01, 0.05, 0.1])
+            s['w_hold'] = rng.choice([0.02, 0.06])
+            s['w_rst'] = rng.choice([0.03, 0.1, 0.2])
+            s['w_part'] = rng.choice([0.0, 0.005])
+            s['w_sub'] = rng.choice([0.35, 0.8])
+            s['steps'] = rng.choice([2500, 4000])
+            s['max_subs'] = 150
+            cfg['n_voters'] = rng.choice([2, 3, 3, 4])
+            conf['connectionRetryTime'] = rng.choice([0, 0, 0.5])
         return cfg
 
     def bound(self, cfg):
